@@ -62,6 +62,15 @@ var baselineFuncs = func() map[string]bool {
 	return m
 }()
 
+func isDeanchored(full string) bool {
+	for _, d := range deanchored {
+		if d == full {
+			return true
+		}
+	}
+	return false
+}
+
 // deanchored: small helpers of the reference tree that the rules do NOT anchor on. They are expanded into their callers
 // like any new helper, on the reference tree too, so that the rules see one normal form whether such a helper exists,
 // was renamed, reshaped (other parameters) or folded into its caller.
@@ -73,6 +82,7 @@ var deanchored = []string{
 	"(*" + modulePath + "/internal/server.Service).redirectToHTTPS",
 	"(*" + modulePath + "/internal/server.ErrorPageMiddleware).getTemplate",
 	"(*" + modulePath + "/internal/server.ErrorPageMiddleware).writeErrorWithoutTemplate",
+	"(*" + modulePath + "/internal/server.RequestIDMiddleware).generateID",
 }
 
 // inlineSeq numbers expansions across all rounds of one run (labels and temporaries must stay unique when a later round
@@ -193,7 +203,7 @@ func flattenHelpers(pkgs []*packages.Package) (map[string][]byte, []string) {
 		freshBy := map[string][]*types.Func{}
 		for obj := range in.decls {
 			present[obj.FullName()] = true
-			if !baselineFuncs[obj.FullName()] {
+			if !baselineFuncs[obj.FullName()] && !isDeanchored(obj.FullName()) {
 				freshBy[group(obj.FullName())] = append(freshBy[group(obj.FullName())], obj)
 			}
 		}
@@ -653,6 +663,15 @@ func (in *inliner) collectLitVars() {
 								if sel.Kind() == types.MethodExpr {
 									in.litVars[v] = &litVar{v: v, file: f, kind: "mexpr", expr: x, p: p, assign: as, idx: i}
 								}
+								// a method value of a plain variable (`h.generateID`): the call is written out again; the
+								// receiver variable must not change in between (checked: never assigned in the function)
+								if sel.Kind() == types.MethodVal && len(sel.Index()) == 1 {
+									if rid, isId := x.X.(*ast.Ident); isId {
+										if rv, isVar := p.TypesInfo.Uses[rid].(*types.Var); isVar && !rv.IsField() {
+											in.litVars[v] = &litVar{v: v, file: f, kind: "mval", expr: x, alias: rv, p: p, assign: as, idx: i}
+										}
+									}
+								}
 							} else if fo, isFn := p.TypesInfo.Uses[x.Sel].(*types.Func); isFn && fo.Type().(*types.Signature).Recv() == nil {
 								in.litVars[v] = &litVar{v: v, file: f, kind: "func", expr: x, p: p, assign: as, idx: i}
 							}
@@ -707,6 +726,14 @@ func (in *inliner) collectLitVars() {
 						if id, ok := l.(*ast.Ident); ok && x.Tok == token.ASSIGN {
 							if v, ok := p.TypesInfo.Uses[id].(*types.Var); ok && in.litVars[v] != nil {
 								delete(in.litVars, v)
+							}
+							// a receiver that is reassigned invalidates method values taken of it
+							if rv, ok := p.TypesInfo.Uses[id].(*types.Var); ok {
+								for k, lv := range in.litVars {
+									if lv.kind == "mval" && lv.alias == rv {
+										delete(in.litVars, k)
+									}
+								}
 							}
 							if id.Name == "_" && len(x.Lhs) == 1 && i == 0 {
 								if rid, ok := x.Rhs[0].(*ast.Ident); ok {
@@ -779,12 +806,14 @@ func (in *inliner) rewriteFuncValueCalls() {
 				if !okScope {
 					return true
 				}
-				if lv.kind == "alias" {
+				if lv.kind == "alias" || lv.kind == "mval" {
 					if _, found := scope.LookupParent(lv.alias.Name(), call.Pos()); found != types.Object(lv.alias) {
 						return true
 					}
 				}
 				switch lv.kind {
+				case "mval":
+					call.Fun = copyExpr(lv.expr)
 				case "alias":
 					call.Fun = ast.NewIdent(lv.alias.Name())
 				case "mexpr":
